@@ -1,5 +1,7 @@
 """C22 - revision numbers and revision specifiers resolve consistently."""
 
+import os
+
 from hypothesis import strategies as st
 
 from vf.api import Kind, check, ok, trivial
@@ -14,7 +16,13 @@ TECHNIQUE = ("Hypothesis-generated revision DAGs built on real 2a/pack-0.92 "
              "across a tip move (cache consistency) and on fresh objects")
 RULE = ("history_spec DAGs of 2-16 revisions (merges of merges, ghost parents, "
         "tags) built with BranchBuilder; a generated tip, a second tip the "
-        "branch is moved to while locked, and a related branch for ancestor:. "
+        "branch is moved to while locked, and a related branch for ancestor: / "
+        "revno:N:PATH. The query groups (revnos, dotted map, merge-sorted "
+        "walks with start / stop, specifiers) run in a generated order on "
+        "each object, followed by a second pass over the warm caches. Kind "
+        "git-dag: the same on a git branch (the generic Branch.get_rev_id / "
+        "revision_id_to_revno); kind remote-dag: on a RemoteBranch through an "
+        "in-process smart server. "
         "Non-trivial: the tip's ancestry contains a merge whose merged side "
         "itself contains a merge (nested) or at least one merge, and "
         "non-mainline revisions are queried. Distinct by case hash (DAG, tips, "
@@ -24,90 +32,120 @@ ASSUMPTIONS = [
     "(trusted base): only bijection, inverse and agreement between breezy's "
     "code paths are asserted",
     "date: specifiers are excluded (local-time dependent)",
+    "iter_merge_sorted_revisions with start / stop: the documented rules "
+    "(start is the first item and only its ancestry follows; exclude / include "
+    "end before / at the stop revision, any revision of the walk; with-merges "
+    "ends at the stop revision's left-hand parent and without-common-ancestry "
+    "removes the stop revision's ancestry, for stop revisions on the mainline)",
 ]
 LEVEL_TEXT = ("Sampled exploration against an independent reference model: every "
               "generated DAG is built on a real branch and every revno / dotted "
               "revno / specifier query over all of its revisions is compared with "
               "the model, on a long-lived object before and after the tip moves "
-              "and on a fresh object.")
+              "and on a fresh object, with cold and warm caches.")
 LEVEL_NOTE = ("Histories are bounded to 16 revisions and 3 parents; vcsgraph's "
-              "merge_sort numbering is trusted; RemoteBranch is not covered here "
-              "(C32 compares remote with local).")
+              "merge_sort numbering is trusted; bzr (2a, pack-0.92), git and "
+              "RemoteBranch objects.")
 REGISTERED = True
 NONTRIVIAL_FLOOR = {"quick": 30, "thorough": 300}
 
+NULL = b"null:"
+AUTO = object()
 
-class _Both:
-    """A specifier resolved through both public code paths: as_revision_id()
-    and in_history().rev_id must name the same revision."""
 
-    def __init__(self, s):
+class Ctx:
+    """What one round of queries against one branch object needs."""
+
+    def __init__(self, br, g, tip, tags, other_path, other_tip, rot, m,
+                 can_write, extras=False):
+        self.extras = extras
+        self.br, self.g, self.tip, self.tags = br, g, tip, tags
+        self.other_path, self.other_tip, self.rot = other_path, other_tip, rot
+        self.m = m                       # reference revno map (fresh object)
+        self.can_write = can_write
+        self.lh = gm.lefthand(g, tip)
+        self.anc = gm.ancestry(g, tip)
+        order = list(range(1, len(self.lh) + 1))
+        self.order = order[rot % len(order):] + order[:rot % len(order)]
+        ranc = sorted(self.anc)
+        self.ranc = ranc[rot % len(ranc):] + ranc[:rot % len(ranc)]
+
+    def revno_of(self, rid):
+        """RevisionInfo.revno: the mainline number, 0 for null:, else None."""
+        if rid == NULL:
+            return 0
+        r = rid.decode()
+        return self.lh.index(r) + 1 if r in self.lh else None
+
+    def resolve(self, s, want, sig, want_revno=AUTO):
+        """A specifier resolved through both public code paths
+        (as_revision_id() and in_history()) names `want`."""
         from breezy import revisionspec
-        self.s = s
-        self.spec = revisionspec.RevisionSpec.from_string(s)
+        a = revisionspec.RevisionSpec.from_string(s).as_revision_id(self.br)
+        info = revisionspec.RevisionSpec.from_string(s).in_history(self.br)
+        check(a == info.rev_id, "C22/as_revision_id-and-in_history-disagree",
+              [s, a, info.rev_id])
+        check(a == want, sig, [self.tip, s, a, want])
+        if want_revno is AUTO:
+            want_revno = self.revno_of(want)
+        check(info.revno == want_revno, "C22/spec-in_history-revno",
+              [self.tip, s, info.revno, want_revno])
+        check(info[0] == want_revno and info[1] == want,
+              "C22/spec-in_history-tuple-form", [self.tip, s])
 
-    def as_revision_id(self, br):
-        a = self.spec.as_revision_id(br)
+    def invalid(self, s, sig):
         from breezy import revisionspec
-        b = revisionspec.RevisionSpec.from_string(self.s).in_history(br).rev_id
-        check(a == b, "C22/as_revision_id-and-in_history-disagree",
-              [self.s, a, b])
-        return a
-
-    def in_history(self, br):
-        return self.spec.in_history(br)
-
-
-def _spec(s):
-    return _Both(s)
+        for how in ("as_revision_id", "in_history"):
+            spec = revisionspec.RevisionSpec.from_string(s)
+            try:
+                got = getattr(spec, how)(self.br)
+            except revisionspec.InvalidRevisionSpec:
+                continue
+            check(False, sig, [self.tip, s, how, repr(got)])
 
 
-def _expect_invalid(fn, sig, detail):
-    from breezy.revisionspec import InvalidRevisionSpec
-    try:
-        got = fn()
-    except InvalidRevisionSpec:
-        return
-    check(False, sig, [detail, repr(got)])
-
-
-def check_branch(br, g, tip, tags, other_path, other_tip, rot):
-    """All queries against `br` (locked by the caller) whose tip is `tip`."""
+def sec_basic(c):
     from breezy import errors
-    full = g                                   # with ghost parents
-    lh = gm.lefthand(full, tip)
-    anc = gm.ancestry(full, tip)
-    e = bz.enc
-    # --- last_revision_info / get_rev_id / revision_id_to_revno
+    br, lh, e = c.br, c.lh, bz.enc
     revno, last = br.last_revision_info()
-    check(last == e(tip) and revno == len(lh), "C22/last-revision-info",
-          [tip, revno, len(lh)])
-    check(br.get_rev_id(0) == b"null:", "C22/get_rev_id-0", None)
-    order = list(range(1, len(lh) + 1))
-    order = order[rot % len(order):] + order[:rot % len(order)]
-    for n in order:
+    check(last == e(c.tip) and revno == len(lh), "C22/last-revision-info",
+          [c.tip, revno, len(lh)])
+    check(br.revno() == len(lh) and br.last_revision() == e(c.tip),
+          "C22/last-revision-info", [c.tip, "revno()/last_revision()"])
+    check(br.get_rev_id(0) == NULL, "C22/get_rev_id-0", None)
+    check(br.revision_id_to_revno(NULL) == 0, "C22/revno-of-null", None)
+    for n in c.order:
         got = br.get_rev_id(n)
-        check(got == e(lh[n - 1]), "C22/get_rev_id", [tip, n, got, lh[n - 1]])
+        check(got == e(lh[n - 1]), "C22/get_rev_id", [c.tip, n, got, lh[n - 1]])
         got = br.revision_id_to_revno(e(lh[n - 1]))
-        check(got == n, "C22/revision_id_to_revno", [tip, lh[n - 1], got, n])
-    try:
-        got = br.get_rev_id(len(lh) + 1)
-        check(False, "C22/get_rev_id-out-of-range-accepted", [tip, got])
-    except (errors.NoSuchRevision, errors.RevnoOutOfBounds):
-        pass
-    for r in sorted(set(g) - set(lh)):
+        check(got == n, "C22/revision_id_to_revno", [c.tip, lh[n - 1], got, n])
+    for bad in (len(lh) + 1, len(lh) + 7, -1):
+        try:
+            got = br.get_rev_id(bad)
+            check(False, "C22/get_rev_id-out-of-range-accepted",
+                  [c.tip, bad, got])
+        except (errors.NoSuchRevision, errors.RevnoOutOfBounds):
+            pass
+    for r in sorted(set(c.g) - set(lh)):
         try:
             got = br.revision_id_to_revno(e(r))
-            check(False, "C22/revno-for-non-mainline-revision", [tip, r, got])
+            check(False, "C22/revno-for-non-mainline-revision", [c.tip, r, got])
         except errors.NoSuchRevision:
             pass
-    # --- dotted revno map
+
+
+def sec_map(c):
+    from breezy import errors
+    br, lh, anc, e, tip = c.br, c.lh, c.anc, bz.enc, c.tip
     m = br.get_revision_id_to_revno_map()
     keys = {k.decode() for k in m}
     check(keys == anc, "C22/revno-map-keys-differ-from-ancestry",
           [tip, sorted(keys ^ anc)])
     check(len(set(m.values())) == len(m), "C22/revno-map-not-injective",
           [tip, sorted((k.decode(), v) for k, v in m.items())])
+    check(dict(m) == c.m, "C22/revno-map-differs-from-a-fresh-object's",
+          [tip, sorted((k.decode(), v, c.m.get(k)) for k, v in m.items()
+                       if c.m.get(k) != v)])
     for r in sorted(anc):
         dr = m[e(r)]
         if r in lh:
@@ -115,94 +153,249 @@ def check_branch(br, g, tip, tags, other_path, other_tip, rot):
                   [tip, r, dr])
         else:
             check(len(dr) == 3, "C22/merged-revision-revno-shape", [tip, r, dr])
-    ranc = sorted(anc)
-    ranc = ranc[rot % len(ranc):] + ranc[:rot % len(ranc)]
-    for r in ranc:
+    for r in c.ranc:
         dr = m[e(r)]
         got = br.dotted_revno_to_revision_id(dr)
         check(got == e(r), "C22/dotted_revno_to_revision_id", [tip, r, dr, got])
         got = br.revision_id_to_dotted_revno(e(r))
         check(got == dr, "C22/revision_id_to_dotted_revno", [tip, r, dr, got])
-    for r in sorted(set(g) - anc):
+    for r in sorted(set(c.g) - anc):
         try:
             got = br.revision_id_to_dotted_revno(e(r))
             check(False, "C22/dotted-revno-for-revision-outside-ancestry",
                   [tip, r, got])
         except errors.NoSuchRevision:
             pass
-    # --- iter_merge_sorted_revisions, both directions
+    used = set(m.values())
+    for dr in ((1, 1, 99), (len(lh), 9, 1), (len(lh) + 1,), (1, 1)):
+        if dr in used:
+            continue
+        try:
+            got = br.dotted_revno_to_revision_id(dr)
+            check(False, "C22/unused-dotted-revno-accepted", [tip, dr, got])
+        except (errors.NoSuchRevision, errors.RevnoOutOfBounds):
+            pass
+
+
+def sec_msort(c):
+    br, lh, anc, e, tip, g = c.br, c.lh, c.anc, bz.enc, c.tip, c.g
     views = {}
     for direction in ("reverse", "forward"):
-        seq = [(rid.decode(), rn, depth) for rid, depth, rn, _eom in
+        seq = [(rid.decode(), tuple(rn), depth, eom) for rid, depth, rn, eom in
                br.iter_merge_sorted_revisions(direction=direction)]
         check(len(seq) == len(set(x[0] for x in seq)),
               "C22/merge-sorted-duplicates", [tip, direction, seq])
         views[direction] = seq
-        for rid, rn, depth in seq:
-            check(m.get(e(rid)) == tuple(rn), "C22/merge-sorted-revno-differs",
-                  [tip, direction, rid, rn, m.get(e(rid))])
+        for rid, rn, depth, _eom in seq:
+            check(c.m.get(e(rid)) == rn, "C22/merge-sorted-revno-differs",
+                  [tip, direction, rid, rn, c.m.get(e(rid))])
             check((depth == 0) == (rid in lh), "C22/merge-sorted-depth",
                   [tip, direction, rid, depth])
-    check(sorted(views["reverse"]) == sorted(views["forward"]),
+    check(views["reverse"] == views["forward"][::-1],
           "C22/merge-sorted-directions-differ", [tip, views])
     check({x[0] for x in views["reverse"]} == anc,
           "C22/merge-sorted-not-ancestry", [tip])
-    # --- specifiers
-    for n in order:
+    full = views["reverse"]
+    pos = {x[0]: i for i, x in enumerate(full)}
+
+    def walk(**kw):
+        kw = {k: (e(v) if k.endswith("_id") and v is not None else v)
+              for k, v in kw.items()}
+        seq = [(rid.decode(), tuple(rn), depth, eom) for rid, depth, rn, eom in
+               br.iter_merge_sorted_revisions(**kw)]
+        for x in seq:
+            check(x[0] in pos and full[pos[x[0]]][:3] == x[:3],
+                  "C22/merge-sorted-walk-disagrees-with-the-full-listing",
+                  [tip, kw, x])
+        idx = [pos[x[0]] for x in seq]
+        check(idx == sorted(set(idx)),
+              "C22/merge-sorted-walk-not-a-subsequence", [tip, kw, seq])
+        return [x[0] for x in seq]
+
+    # start revisions: it comes first, exactly its ancestry follows
+    picks = [c.ranc[0], c.ranc[len(c.ranc) // 2]]
+    for s in dict.fromkeys(picks):
+        base = walk(start_revision_id=s)
+        check(base[:1] == [s] and set(base) == gm.ancestry(g, s),
+              "C22/merge-sorted-start-not-its-ancestry",
+              [tip, s, base, sorted(gm.ancestry(g, s))])
+        # any revision of the walk as stop revision (the two "with-merges"
+        # rules below are only defined for mainline stops)
+        stop = base[(c.rot * 7 + len(base) // 2) % len(base)]
+        i = base.index(stop)
+        got = walk(start_revision_id=s, stop_revision_id=stop,
+                   stop_rule="exclude")
+        check(got == base[:i], "C22/merge-sorted-stop-exclude",
+              [tip, s, stop, got, base])
+        got = walk(start_revision_id=s, stop_revision_id=stop,
+                   stop_rule="include")
+        check(got == base[:i + 1], "C22/merge-sorted-stop-include",
+              [tip, s, stop, got, base])
+    # mainline start and stop: the two "with merges" rules
+    s = lh[len(lh) - 1 - c.rot % len(lh)]
+    slh = gm.lefthand(g, s)
+    stop = slh[(c.rot // 2) % len(slh)]
+    below = gm.ancestry(g, g[stop][0]) if g[stop] and g[stop][0] in g else set()
+    got = walk(start_revision_id=s, stop_revision_id=stop,
+               stop_rule="with-merges")
+    check(set(got) == gm.ancestry(g, s) - below and len(got) == len(set(got)),
+          "C22/merge-sorted-stop-with-merges",
+          [tip, s, stop, got, sorted(gm.ancestry(g, s) - below)])
+    if stop != s:
+        got = walk(start_revision_id=s, stop_revision_id=stop,
+                   stop_rule="with-merges-without-common-ancestry")
+        want = gm.ancestry(g, s) - gm.ancestry(g, stop)
+        check(set(got) == want and len(got) == len(set(got)),
+              "C22/merge-sorted-stop-without-common-ancestry",
+              [tip, s, stop, got, sorted(want)])
+
+
+def sec_specs(c):
+    from breezy import errors
+    br, lh, anc, e, tip, g = c.br, c.lh, c.anc, bz.enc, c.tip, c.g
+    for n in c.order:
         r = lh[n - 1]
         for s in (str(n), "revno:%d" % n, "-%d" % (len(lh) - n + 1),
+                  "revno:-%d" % (len(lh) - n + 1),
                   "last:%d" % (len(lh) - n + 1)):
-            got = _spec(s).as_revision_id(br)
-            check(got == e(r), "C22/spec-revno", [tip, s, got, r])
-        info = _spec(str(n)).in_history(br)
-        check(info.revno == n and info.rev_id == e(r), "C22/spec-in_history",
-              [tip, n, info.revno, info.rev_id])
-    got = _spec("-%d" % (len(lh) + 5)).as_revision_id(br)
-    check(got == e(lh[0]), "C22/spec-negative-beyond-history", [tip, got])
-    _expect_invalid(lambda: _spec(str(len(lh) + 1)).as_revision_id(br),
-                    "C22/spec-out-of-range-accepted", [tip, len(lh) + 1])
-    _expect_invalid(lambda: _spec("last:%d" % (len(lh) + 2)).as_revision_id(br),
-                    "C22/spec-last-out-of-range-accepted", [tip])
-    for r in ranc:
-        got = _spec("revid:" + r).as_revision_id(br)
-        check(got == e(r), "C22/spec-revid", [tip, r, got])
-        dr = ".".join(str(x) for x in m[e(r)])
-        got = _spec(dr).as_revision_id(br)
-        check(got == e(r), "C22/spec-dotted", [tip, dr, got, r])
+            c.resolve(s, e(r), "C22/spec-revno", n)
+    c.resolve("last:", e(tip), "C22/spec-last-empty", len(lh))
+    c.resolve("0", NULL, "C22/spec-revno-zero", 0)
+    c.resolve("-%d" % (len(lh) + 5), e(lh[0]),
+              "C22/spec-negative-beyond-history", 1)
+    c.invalid(str(len(lh) + 1), "C22/spec-out-of-range-accepted")
+    c.invalid("last:%d" % (len(lh) + 2), "C22/spec-last-out-of-range-accepted")
+    c.invalid("last:0", "C22/spec-last-zero-accepted")
+    c.invalid("%d.1.99" % len(lh), "C22/spec-unused-dotted-revno-accepted")
+    for r in c.ranc:
+        c.resolve("revid:" + r, e(r), "C22/spec-revid")
+        dr = ".".join(str(x) for x in c.m[e(r)])
+        c.resolve(dr, e(r), "C22/spec-dotted")
+        c.resolve("revno:" + dr, e(r), "C22/spec-dotted")
         # before: -> left-hand parent (null: when there is none)
-        ps = full[r]
-        want = e(ps[0]) if ps else b"null:"
+        ps = g[r]
+        want = e(ps[0]) if ps else NULL
         for s in ("before:revid:" + r, "before:" + dr):
-            got = _spec(s).as_revision_id(br)
-            check(got == want, "C22/spec-before", [tip, s, got, want])
+            c.resolve(s, want, "C22/spec-before")
+        if ps and ps[0] in g:
+            pps = g[ps[0]]
+            c.resolve("before:before:revid:" + r, e(pps[0]) if pps else NULL,
+                      "C22/spec-before-before")
         # mainline: -> oldest mainline revision whose ancestry contains r
-        want = next(x for x in lh if r in gm.ancestry(full, x))
-        got = _spec("mainline:revid:" + r).as_revision_id(br)
-        check(got == e(want), "C22/spec-mainline", [tip, r, got, want])
-    _expect_invalid(lambda: _spec("before:0").as_revision_id(br),
-                    "C22/spec-before-null-accepted", [tip])
-    for t, r in sorted(tags.items()):
-        got = _spec("tag:" + t).as_revision_id(br)
-        check(got == e(r), "C22/spec-tag", [tip, t, got, r])
+        want = next(x for x in lh if r in gm.ancestry(g, x))
+        for s in ("mainline:revid:" + r, "mainline:" + dr):
+            c.resolve(s, e(want), "C22/spec-mainline")
+    c.resolve("before:last:1", e(g[tip][0]) if g[tip] else NULL,
+              "C22/spec-before")
+    c.invalid("before:0", "C22/spec-before-null-accepted")
+    c.invalid("before:revid:null:", "C22/spec-before-null-accepted")
+    for r in sorted(set(g) - anc):
+        # revisions of the repository outside this branch's ancestry
+        c.resolve("revid:" + r, e(r), "C22/spec-revid-outside-ancestry")
+        ps = g[r]
+        c.resolve("before:revid:" + r, e(ps[0]) if ps else NULL,
+                  "C22/spec-before-outside-ancestry")
+        c.invalid("mainline:revid:" + r, "C22/spec-mainline-of-unmerged-accepted")
+    for t, r in sorted(c.tags.items()):
+        c.resolve("tag:" + t, e(r), "C22/spec-tag")
+        ps = g[r]
+        c.resolve("before:tag:" + t, e(ps[0]) if ps else NULL,
+                  "C22/spec-before")
+    from breezy import revisionspec
     try:
-        got = _spec("tag:no-such-tag").as_revision_id(br)
+        got = revisionspec.RevisionSpec.from_string(
+            "tag:no-such-tag").as_revision_id(br)
         check(False, "C22/spec-unknown-tag-accepted", [tip, got])
     except errors.NoSuchTag:
         pass
+    c.invalid("revno:", "C22/spec-empty-revno-accepted")
+    c.invalid("revno:1.x", "C22/spec-malformed-dotted-revno-accepted")
+    if c.extras:
+        sec_other_branch(c)
     # ancestor:PATH
-    common = gm.ancestry(full, tip) & gm.ancestry(full, other_tip)
+    from breezy import revisionspec
+    common = gm.ancestry(g, tip) & gm.ancestry(g, c.other_tip)
     try:
-        got = _spec("ancestor:" + other_path).as_revision_id(br)
+        got = revisionspec.RevisionSpec.from_string(
+            "ancestor:" + c.other_path).as_revision_id(br)
     except errors.NoCommonAncestor:
         check(not common, "C22/spec-ancestor-refused-with-common-ancestry",
-              [tip, other_tip, sorted(common)])
+              [tip, c.other_tip, sorted(common)])
     else:
         check(got.decode() in common, "C22/spec-ancestor-not-common",
-              [tip, other_tip, got])
-        mx = gm.heads(full, sorted(common))
+              [tip, c.other_tip, got])
+        mx = gm.heads(g, sorted(common))
         if len(mx) == 1:
             check(got == e(mx[0]), "C22/spec-ancestor-not-the-unique-lca",
-                  [tip, other_tip, got, mx])
+                  [tip, c.other_tip, got, mx])
+        c.resolve("ancestor:" + c.other_path, got, "C22/spec-ancestor")
+
+
+def sec_other_branch(c):
+    """Specifiers that name a revision through the other branch (each opens
+    it: done on two of the three objects of a case)."""
+    br, lh, anc, e, tip, g = c.br, c.lh, c.anc, bz.enc, c.tip, c.g
+    # numbers in another branch: revno:N:PATH, -N:PATH
+    olh = gm.lefthand(g, c.other_tip)
+    n = 1 + c.rot % len(olh)
+    for s, i in (("revno:%d:%s" % (n, c.other_path), n),
+                 ("%d:%s" % (n, c.other_path), n),
+                 ("-1:%s" % c.other_path, len(olh)),
+                 ("revno:-%d:%s" % (len(olh) + 3, c.other_path), 1)):
+        c.resolve(s, e(olh[i - 1]), "C22/spec-revno-in-another-branch", i)
+    c.invalid("revno:%d:%s" % (len(olh) + 1, c.other_path),
+              "C22/spec-out-of-range-accepted")
+    # mainline: of a revision named in the other branch
+    s = "mainline:revno:%d:%s" % (n, c.other_path)
+    if olh[n - 1] in anc:
+        want = next(x for x in lh if olh[n - 1] in gm.ancestry(g, x))
+        c.resolve(s, e(want), "C22/spec-mainline")
+    else:
+        c.invalid(s, "C22/spec-mainline-of-unmerged-accepted")
+    if c.can_write:
+        # branch:PATH names the other branch's tip (and fetches it)
+        c.resolve("branch:" + c.other_path, e(c.other_tip), "C22/spec-branch")
+
+
+def sec_requery(c):
+    """Second pass over the now warm caches of the same object."""
+    br, lh, e = c.br, c.lh, bz.enc
+    for r in c.ranc:
+        got = br.revision_id_to_dotted_revno(e(r))
+        check(got == c.m[e(r)], "C22/revision_id_to_dotted_revno-second-call",
+              [c.tip, r, got, c.m[e(r)]])
+        got = br.dotted_revno_to_revision_id(c.m[e(r)])
+        check(got == e(r), "C22/dotted_revno_to_revision_id-second-call",
+              [c.tip, r, got])
+    for n in c.order[::-1]:
+        check(br.get_rev_id(n) == e(lh[n - 1]), "C22/get_rev_id-second-call",
+              [c.tip, n])
+        check(br.revision_id_to_revno(e(lh[n - 1])) == n,
+              "C22/revision_id_to_revno-second-call", [c.tip, n])
+    check(br.last_revision_info() == (len(lh), e(c.tip)),
+          "C22/last-revision-info", [c.tip, "second call"])
+
+
+SECTIONS = [sec_basic, sec_map, sec_msort, sec_specs]
+
+
+def ref_map(path):
+    """The revno map as a fresh object of the same branch computes it."""
+    from breezy import branch as _branch
+    b = _branch.Branch.open(path)
+    with b.lock_read():
+        return dict(b.get_revision_id_to_revno_map())
+
+
+def check_branch(br, path, g, tip, tags, other_path, other_tip, rot,
+                 can_write=False, extras=False):
+    """All queries against `br` (locked by the caller) whose tip is `tip`."""
+    c = Ctx(br, g, tip, tags, other_path, other_tip, rot, ref_map(path),
+            can_write, extras)
+    secs = SECTIONS[rot % 4:] + SECTIONS[:rot % 4]
+    for sec in secs:
+        sec(c)
+    sec_requery(c)
 
 
 def nontrivial_label(g, tip):
@@ -218,27 +411,15 @@ def nontrivial_label(g, tip):
     return "merge"
 
 
-def run(case, env):
+def exercise(path, opath, g, tip, tip2, other_tip, tags, rot, open_path=None):
+    """The three phases on the branch at `path` (opened as `open_path`)."""
     from breezy import branch as _branch
-    spec = case["spec"]
-    d = env.newdir()
-    br = bz.init_branch(d + "/b", case["format"])
-    history.build_bb(spec, br)
-    g = history.graph_of(spec)
-    tip, tip2, other_tip = case["tip"], case["tip2"], case["other"]
-    history.set_tip(br, spec, tip)
-    tags = case["tags"]
-    for t, r in tags.items():
-        br.tags.set_tag(t, bz.enc(r))
-    # a related branch for ancestor:
-    ob = br.controldir.sprout(d + "/o", revision_id=bz.enc(other_tip)
-                              ).open_branch()
-    check(ob.last_revision() == bz.enc(other_tip), "C22/sprout-tip", None)
-    rot = case["rot"]
+    open_path = open_path or path
     # 1. long-lived write-locked object: before and after the tip moves
-    live = _branch.Branch.open(d + "/b")
+    live = _branch.Branch.open(open_path)
     with live.lock_write():
-        check_branch(live, g, tip, tags, d + "/o", other_tip, rot)
+        check_branch(live, path, g, tip, tags, opath, other_tip, rot, True,
+                     extras=True)
         lh2 = gm.lefthand(g, tip2)
         # hooks that read the numbering while the tip is being changed (as
         # plugins do) must not leave caches of the old tip behind
@@ -251,7 +432,7 @@ def run(case, env):
             list(b.iter_merge_sorted_revisions())
             b.get_rev_id(1)
         names = ["pre_change_branch_tip", "post_change_branch_tip"]
-        pick = names if case["rot"] % 3 == 0 else names[:case["rot"] % 3 - 1]
+        pick = names if rot % 3 == 0 else names[:rot % 3 - 1]
         for hn in pick:
             _branch.Branch.hooks.install_named_hook(hn, reading_hook, "vf-c22")
         try:
@@ -259,27 +440,120 @@ def run(case, env):
         finally:
             for hn in pick:
                 _branch.Branch.hooks.uninstall_named_hook(hn, "vf-c22")
-        check_branch(live, g, tip2, tags, d + "/o", other_tip, rot + 1)
+        check_branch(live, path, g, tip2, tags, opath, other_tip, rot + 1, True)
     # 2. a fresh object under a read lock
-    fresh = _branch.Branch.open(d + "/b")
+    fresh = _branch.Branch.open(open_path)
     with fresh.lock_read():
-        check_branch(fresh, g, tip2, tags, d + "/o", other_tip, rot + 2)
+        check_branch(fresh, path, g, tip2, tags, opath, other_tip, rot + 2,
+                     extras=True)
     # 3. fresh object, no explicit lock (each call locks for itself)
-    fresh = _branch.Branch.open(d + "/b")
+    fresh = _branch.Branch.open(open_path)
     lh2 = gm.lefthand(g, tip2)
     for n in range(1, len(lh2) + 1):
         check(fresh.get_rev_id(n) == bz.enc(lh2[n - 1]),
               "C22/get_rev_id-unlocked", [tip2, n])
+        check(fresh.revision_id_to_revno(bz.enc(lh2[n - 1])) == n,
+              "C22/revision_id_to_revno-unlocked", [tip2, n])
+    m = ref_map(path)
+    for r in sorted(gm.ancestry(g, tip2)):
+        check(fresh.revision_id_to_dotted_revno(bz.enc(r)) == m[bz.enc(r)],
+              "C22/revision_id_to_dotted_revno-unlocked", [tip2, r])
+    if rot % 12 == 11:
+        # an empty number with a branch ("revno::PATH") is accepted by the
+        # parser; it has no documented meaning, so: the other branch's tip or
+        # InvalidRevisionSpec - nothing else.  Last, in one case out of twelve,
+        # because it is an open finding (UnboundLocalError).
+        from breezy import revisionspec
+        s = "revno::" + opath
+        try:
+            got = revisionspec.RevisionSpec.from_string(s).as_revision_id(fresh)
+        except revisionspec.InvalidRevisionSpec:
+            pass
+        except UnboundLocalError as exc:
+            check(False, "C22/spec-empty-revno-with-branch-raises-"
+                  "UnboundLocalError", [s, str(exc)])
+        else:
+            check(got == bz.enc(other_tip),
+                  "C22/spec-empty-revno-with-branch", [s, got, other_tip])
+
+
+def run(case, env, remote=False):
+    spec = case["spec"]
+    d = env.newdir()
+    br = bz.init_branch(d + "/b", case["format"])
+    history.build_bb(spec, br)
+    g = history.graph_of(spec)
+    tip, tip2, other_tip = case["tip"], case["tip2"], case["other"]
+    history.set_tip(br, spec, tip)
+    tags = case["tags"]
+    for t, r in tags.items():
+        br.tags.set_tag(t, bz.enc(r))
+    # a related branch for ancestor: / revno:N:PATH
+    ob = br.controldir.sprout(d + "/o", revision_id=bz.enc(other_tip)
+                              ).open_branch()
+    check(ob.last_revision() == bz.enc(other_tip), "C22/sprout-tip", None)
+    open_path = None
+    if remote:
+        srv = env.shared["c22-srv"]
+        open_path = srv.get_url() + os.path.relpath(d + "/b", env.root)
+    exercise(d + "/b", d + "/o", g, tip, tip2, other_tip, tags, case["rot"],
+             open_path)
     la = nontrivial_label(g, tip) or nontrivial_label(g, tip2)
     if la is None:
         return trivial()
     return ok(la)
 
 
+def run_remote(case, env):
+    return run(case, env, remote=True)
+
+
+def run_git(case, env):
+    """The same queries on a git branch: LocalGitBranch uses the generic
+    Branch.get_rev_id / revision_id_to_revno / dotted-revno code."""
+    spec = case["spec"]
+    d = env.newdir()
+    wt, _models, idmap = history.build_wt(spec, d + "/b", "git", tags=False)
+    real = {k: v.decode() for k, v in idmap.items()}
+    g = {real[r]: tuple(real[p] for p in ps)
+         for r, ps in history.graph_of(spec, ghosts=False).items()}
+    tip, tip2, other_tip = (real[case[k]] for k in ("tip", "tip2", "other"))
+    br = wt.branch
+    with br.lock_write():
+        br.set_last_revision_info(len(gm.lefthand(g, tip)), bz.enc(tip))
+    tags = {t: real[r] for t, r in case["tags"].items() if " " not in t}
+    for t, r in tags.items():
+        br.tags.set_tag(t, bz.enc(r))
+    ob = br.controldir.sprout(d + "/o", revision_id=bz.enc(other_tip)
+                              ).open_branch()
+    check(ob.last_revision() == bz.enc(other_tip), "C22/sprout-tip", None)
+    exercise(d + "/b", d + "/o", g, tip, tip2, other_tip, tags, case["rot"])
+    la = nontrivial_label(g, tip) or nontrivial_label(g, tip2)
+    return ok("git:" + la) if la else trivial()
+
+
+def setup_server(env):
+    from breezy.tests import test_server
+    from breezy import urlutils
+
+    class _Dir:
+        def get_url(self):
+            return urlutils.local_path_to_url(env.root) + "/"
+    srv = test_server.SmartTCPServer_for_testing()
+    srv.start_server(_Dir())
+    env.shared["c22-srv"] = srv
+
+
+def teardown_server(env):
+    srv = env.shared.pop("c22-srv", None)
+    if srv is not None:
+        srv.stop_server()
+
+
 @st.composite
-def cases(draw, n_max=12):
+def cases(draw, n_max=12, ghosts=True):
     spec = draw(history.history_spec(
-        n_min=2, n_max=n_max, merges=True, ghosts=True, bb_safe=True,
+        n_min=2, n_max=n_max, merges=True, ghosts=ghosts, bb_safe=True,
         ops_max=1, base_max=1, tags=False))
     ids = [r["id"] for r in spec["revs"]]
     late = ids[len(ids) // 2:]
@@ -292,12 +566,18 @@ def cases(draw, n_max=12):
     return {"spec": spec, "format": draw(st.sampled_from(["2a", "2a",
                                                           "pack-0.92"])),
             "tip": tip, "tip2": tip2, "other": other, "tags": tags,
-            "rot": draw(st.integers(0, 7))}
+            "rot": draw(st.integers(0, 11))}
 
 
 def kinds(tier):
+    q = tier == "quick"
     return [
-        Kind("dag-queries", run,
-             strategy=cases(n_max=12 if tier == "quick" else 16),
+        Kind("dag-queries", run, strategy=cases(n_max=12 if q else 16),
              examples={"quick": 320, "thorough": 12000}),
+        Kind("git-dag", run_git,
+             strategy=cases(n_max=8 if q else 12, ghosts=False),
+             examples={"quick": 96, "thorough": 3000}),
+        Kind("remote-dag", run_remote, strategy=cases(n_max=6 if q else 10),
+             examples={"quick": 32, "thorough": 1000},
+             setup=setup_server, teardown=teardown_server),
     ]
